@@ -18,7 +18,10 @@ use crate::{
 use derivative::Derivative;
 use num_traits::ToPrimitive;
 use rc::Rc;
+#[cfg(not(xray_verif))]
 use std::collections::HashMap;
+#[cfg(xray_verif)]
+use crate::verif::RtHashMap as HashMap;
 use std::fmt::Debug;
 
 use std::iter::once;
